@@ -391,14 +391,84 @@ class Inliner:
             ast.fix_missing_locations(s)
         return pre + new_body, new_ret
 
-    def hoist_nested(self, s, cls, helpers, fn):
-        """A statement-level-inlinable helper call nested inside a simple statement's expression is evaluated into a
-        temporary first, when nothing that could observe the difference is evaluated before it."""
-        if not isinstance(s, (ast.Expr, ast.Assign, ast.AugAssign, ast.AnnAssign, ast.Return)) or getattr(s, "value", None) is None:
+    def inline_generator_loop(self, s, cls, helpers, fn):
+        """for v in self._gen(args): BODY  with _gen a new generator helper built only from loops / ifs and `yield e` /
+        `yield from L` statements: the helper's body with every yield replaced by (v = e; BODY) resp. (for v in L: BODY).
+        BODY must not break/return out of the loop being replaced... a return is fine (it leaves the function either way),
+        break / for-else are not."""
+        if not (isinstance(s, ast.For) and not s.orelse and isinstance(s.iter, ast.Call)):
             return None
-        root = s.value
+        h, is_m = self.match_call(s.iter, cls, helpers)
+        if h is None or h is fn:
+            return None
+        if not any(isinstance(x, (ast.Yield, ast.YieldFrom)) for x in ast.walk(h)):
+            return None
+        if any(isinstance(x, ast.Break) for b in s.body for x in ast.walk(b)):
+            return None
+        b = self.bind(h, is_m, s.iter)
+        if b is None:
+            return None
+        params, vals = b
+        if not all(simple_arg(vals[p]) for p in params):
+            return None
+        body = list(h.body)
+        if body and isinstance(body[0], ast.Expr) and isinstance(body[0].value, ast.Constant) and isinstance(body[0].value.value, str):
+            body = body[1:]
+        self.counter += 1
+        tag = "__%s%d_" % (h.name.strip("_"), self.counter)
+        assigned = {n.id for t in body for n in ast.walk(t) if isinstance(n, ast.Name) and isinstance(n.ctx, ast.Store)}
+        mapping = {n: tag + n for n in assigned}
+        rn = _Rename(mapping, {p: vals[p] for p in params if p not in assigned})
+        ok = [True]
+        loop_body, target = s.body, s.target
+
+        def conv(stmts):
+            out = []
+            for t in stmts:
+                if isinstance(t, ast.Expr) and isinstance(t.value, ast.Yield):
+                    if t.value.value is None:
+                        ok[0] = False
+                        continue
+                    out.append(ast.Assign(targets=[copy.deepcopy(target)], value=t.value.value))
+                    out.extend(copy.deepcopy(loop_body))
+                elif isinstance(t, ast.Expr) and isinstance(t.value, ast.YieldFrom):
+                    out.append(ast.For(target=copy.deepcopy(target), iter=t.value.value, body=copy.deepcopy(loop_body), orelse=[]))
+                elif isinstance(t, (ast.For, ast.While)) and not t.orelse:
+                    n2 = copy.copy(t)
+                    n2.body = conv(t.body)
+                    out.append(n2)
+                elif isinstance(t, ast.If):
+                    n2 = copy.copy(t)
+                    n2.body = conv(t.body)
+                    n2.orelse = conv(t.orelse)
+                    out.append(n2)
+                elif any(isinstance(x, (ast.Yield, ast.YieldFrom, ast.Return)) for x in ast.walk(t)):
+                    ok[0] = False
+                else:
+                    out.append(t)
+            return out
+        new = conv([rn.visit(copy.deepcopy(t)) for t in body])
+        if not ok[0]:
+            return None
+        for t in new:
+            ast.copy_location(t, s)
+            ast.fix_missing_locations(t)
+        self.inlined.append("%s -> %s (generator)" % (h.name, fn.name))
+        return new
+
+    def hoist_nested(self, s, cls, helpers, fn):
+        """A statement-level-inlinable helper call nested inside a simple statement's expression (or an if-test) is evaluated
+        into a temporary first, when nothing that could observe the difference is evaluated before it."""
+        if isinstance(s, ast.If):
+            root = s.test
+            field = "test"
+        elif isinstance(s, (ast.Expr, ast.Assign, ast.AugAssign, ast.AnnAssign, ast.Return)) and getattr(s, "value", None) is not None:
+            root = s.value
+            field = "value"
+        else:
+            return None
         h0, _ = self.match_call(root, cls, helpers) if isinstance(root, ast.Call) else (None, False)
-        if h0 is not None:
+        if h0 is not None and field == "value":
             return None
         par = {}
         for a in ast.walk(root):
@@ -440,7 +510,10 @@ class Inliner:
                 if n is H:
                     return ast.copy_location(ast.Name(id=name, ctx=ast.Load()), n)
                 return self.generic_visit(n)
-        s.value = Rep().visit(root)
+        if root is H:
+            setattr(s, field, ast.copy_location(ast.Name(id=name, ctx=ast.Load()), H))
+        else:
+            setattr(s, field, Rep().visit(root))
         new = ast.Assign(targets=[ast.Name(id=name, ctx=ast.Store())], value=H)
         ast.copy_location(new, s)
         ast.fix_missing_locations(new)
@@ -454,6 +527,11 @@ class Inliner:
         def in_block(stmts):
             out = []
             for s in stmts:
+                g = me.inline_generator_loop(s, cls, helpers, fn)
+                if g is not None:
+                    out.extend(in_block(g))
+                    changed[0] = True
+                    continue
                 # recurse into compound statements first
                 for field in ("body", "orelse", "finalbody"):
                     b = getattr(s, field, None)
@@ -710,6 +788,10 @@ def reads(e):
             name = src(n.func)
             if (name.startswith(PURE_NS) and not name.startswith(IMPURE_NP)) or (isinstance(n.func, ast.Name) and n.func.id in PURE_CALL_NAMES):
                 continue
+            if isinstance(n.func, ast.Attribute) and n.func.attr.startswith("get_") and not n.args and not n.keywords and REBOUND[0] is not None and \
+                    n.func.attr[4:] not in REBOUND[0] and is_const_attr(n.func.value):
+                skip.add(id(n.func))
+                continue        # getter of a constructor-only field of a constructor-only attribute: always the same object
             # the result of a getter depends on the object's state: represent by a pseudo-location
             out.add("<state>")
     return out
@@ -916,7 +998,8 @@ def substitute_new_temps(fn, known_locals):
                 if isinstance(b, list) and b and isinstance(b[0], ast.stmt):
                     process(b)
             if isinstance(s, ast.Assign) and len(s.targets) == 1 and isinstance(s.targets[0], ast.Name) \
-                    and s.targets[0].id not in known_locals and not s.targets[0].id.startswith("__") and pure_expr(s.value):
+                    and s.targets[0].id not in known_locals and pure_expr(s.value) and \
+                    (not s.targets[0].id.startswith("__") or (simple_arg(s.value) and not isinstance(s.value, (ast.Constant, ast.Name)))):
                 name = s.targets[0].id
                 # single definition in the whole function, no augmented assignment
                 defs = [n for n in ast.walk(fn) if isinstance(n, ast.Name) and n.id == name and isinstance(n.ctx, (ast.Store, ast.Del))]
@@ -1024,6 +1107,35 @@ def while_true_breaks(fn):
 
 def _leading_break(s):
     return isinstance(s, ast.If) and not s.orelse and len(s.body) == 1 and isinstance(s.body[0], ast.Break)
+
+
+def count_loops(fn):
+    """for v in itertools.count([a]): if c: break; REST  (no continue in REST, v not assigned in REST)  ->
+       v = a; while not c: REST; v += 1"""
+    k = 0
+    for blk in _blocks(fn):
+        for i, s in enumerate(blk):
+            if not (isinstance(s, ast.For) and not s.orelse and isinstance(s.target, ast.Name) and isinstance(s.iter, ast.Call) and
+                    src(s.iter.func) in ("itertools.count", "count") and len(s.iter.args) <= 1 and not s.iter.keywords):
+                continue
+            if not (s.body and _leading_break(s.body[0])):
+                continue
+            rest = s.body[1:]
+            v = s.target.id
+            if any(isinstance(x, ast.Continue) for t in rest for x in ast.walk(t)) or \
+                    any(isinstance(x, ast.Name) and x.id == v and isinstance(x.ctx, ast.Store) for t in rest for x in ast.walk(t)):
+                continue
+            start = s.iter.args[0] if s.iter.args else ast.Constant(value=0)
+            init = ast.Assign(targets=[ast.Name(id=v, ctx=ast.Store())], value=start)
+            inc = ast.AugAssign(target=ast.Name(id=v, ctx=ast.Store()), op=ast.Add(), value=ast.Constant(value=1))
+            w = ast.While(test=negate(s.body[0].test), body=rest + [inc], orelse=[])
+            for t in (init, w):
+                ast.copy_location(t, s)
+                ast.fix_missing_locations(t)
+            blk[i:i + 1] = [init, w]
+            k += 1
+            return k + count_loops(fn)
+    return k
 
 
 def counter_whiles(fn):
@@ -1287,6 +1399,105 @@ def forward_unpack_targets(fn, known):
                         if any(isinstance(n2, ast.Name) and n2.id == el.id for n2 in ast.walk(t)):
                             break
             i += 1
+    return k
+
+
+def thread_bool_flags(fn):
+    """T; if f: X else: Y  where T is an if/else tree every path of which ends with `f = True|False` (f an inliner temporary
+    used nowhere else): X / Y are moved to the ends of those paths and the test on f disappears (jump threading)."""
+    k = 0
+
+    def leaves(stmts, f):
+        """assignment sites (block, index, const) at the end of every path through stmts, or None"""
+        if not stmts:
+            return None
+        last = stmts[-1]
+        if isinstance(last, ast.Assign) and len(last.targets) == 1 and isinstance(last.targets[0], ast.Name) and last.targets[0].id == f and \
+                isinstance(last.value, ast.Constant) and isinstance(last.value.value, bool):
+            return [(stmts, len(stmts) - 1, last.value.value)]
+        if isinstance(last, ast.If) and last.orelse:
+            a, b = leaves(last.body, f), leaves(last.orelse, f)
+            if a is None or b is None:
+                return None
+            return a + b
+        return None
+    again = True
+    while again:
+        again = False
+        for blk in _blocks(fn):
+            for i in range(1, len(blk)):
+                s = blk[i]
+                if not isinstance(s, ast.If):
+                    continue
+                t, pol = s.test, True
+                while isinstance(t, ast.UnaryOp) and isinstance(t.op, ast.Not):
+                    t, pol = t.operand, not pol
+                if not (isinstance(t, ast.Name) and t.id.startswith("__")):
+                    continue
+                f = t.id
+                prev = blk[i - 1]
+                if not isinstance(prev, ast.If):
+                    continue
+                lv = leaves([prev], f)
+                if lv is None:
+                    continue
+                # f is read only by this test and written only at the leaves
+                reads_f = [n for n in ast.walk(fn) if isinstance(n, ast.Name) and n.id == f and isinstance(n.ctx, ast.Load)]
+                writes_f = [n for n in ast.walk(fn) if isinstance(n, ast.Name) and n.id == f and isinstance(n.ctx, ast.Store)]
+                if len(reads_f) != 1 or len(writes_f) != len(lv):
+                    # an initial `f = None/False` before the tree is tolerated when it is the statement just before it
+                    extra = [w for w in writes_f if not any(w is site[0][site[1]].targets[0] for site in lv)]
+                    if len(reads_f) != 1 or len(extra) != 1:
+                        continue
+                    init = None
+                    for b2 in _blocks(fn):
+                        for st in b2:
+                            if isinstance(st, ast.Assign) and st.targets[0] is extra[0]:
+                                init = (b2, st)
+                    if init is None or init[0] is not blk or blk.index(init[1]) != i - 2:
+                        continue
+                    blk.remove(init[1])
+                    i -= 1
+                X, Y = (s.body, s.orelse) if pol else (s.orelse, s.body)
+                for site_blk, idx, const in lv:
+                    tail = copy.deepcopy(X if const else Y)
+                    site_blk[idx:idx + 1] = tail if tail else [ast.copy_location(ast.Pass(), site_blk[idx])]
+                del blk[i]
+                ast.fix_missing_locations(fn)
+                k += 1
+                again = True
+                break
+            if again:
+                break
+    return k
+
+
+def cse_const_aliases(fn):
+    """A local bound exactly once, at the top level of the function, to an expression that always denotes the same object
+    (`node_list = self.partition.get_node_list()`): later spellings of that expression are replaced by the local."""
+    k = 0
+    for i, s in enumerate(fn.body):
+        if not (isinstance(s, ast.Assign) and len(s.targets) == 1 and isinstance(s.targets[0], ast.Name) and
+                isinstance(s.value, (ast.Call, ast.Attribute))):
+            continue
+        x = s.targets[0].id
+        if sum(1 for n in ast.walk(fn) if isinstance(n, ast.Name) and n.id == x and isinstance(n.ctx, (ast.Store, ast.Del))) != 1:
+            continue
+        if reads(s.value):
+            continue        # not a constant designator
+        text = src(s.value)
+
+        class R(ast.NodeTransformer):
+            def generic_visit(self, n):
+                nonlocal k
+                if isinstance(n, ast.expr) and isinstance(n, (ast.Call, ast.Attribute)) and isinstance(getattr(n, "ctx", ast.Load()), ast.Load) \
+                        and src(n) == text:
+                    k += 1
+                    return ast.copy_location(ast.Name(id=x, ctx=ast.Load()), n)
+                return super().generic_visit(n)
+        for j in range(i + 1, len(fn.body)):
+            fn.body[j] = R().visit(fn.body[j])
+            ast.fix_missing_locations(fn.body[j])
     return k
 
 
@@ -1679,9 +1890,10 @@ def normalize_tree(file, tree, vocab):
             t0 += rename_result_temps(f)
             t0 += rename_multi_def_temps(f)
             t0 += eliminate_result_copies(f)
+            t0 += thread_bool_flags(f)
             if t0:
                 log.append("%s.%s: %d parallel assignment(s) split / result temporaries renamed" % (cname, f.name, t0))
-            w4 = while_true_breaks(f) + counter_whiles(f)
+            w4 = count_loops(f) + while_true_breaks(f) + counter_whiles(f)
             if w4:
                 log.append("%s.%s: %d loop(s) brought to while-cond / for-range form" % (cname, f.name, w4))
             g = guard_clauses(f)
@@ -1694,6 +1906,12 @@ def normalize_tree(file, tree, vocab):
                 k = substitute_new_temps(f, known | set(a.arg for a in f.args.args))
                 if k:
                     log.append("%s.%s: %d new temporar%s substituted" % (cname, f.name, k, "y" if k == 1 else "ies"))
+            cs = cse_const_aliases(f)
+            if cs:
+                log.append("%s.%s: %d spelling(s) of a constant designator replaced by its local alias" % (cname, f.name, cs))
             _DropBool().visit(f)
+            for blk in _blocks(f):
+                if len(blk) > 1 and any(isinstance(x, ast.Pass) for x in blk):
+                    blk[:] = [x for x in blk if not isinstance(x, ast.Pass)] or [blk[0]]
             ast.fix_missing_locations(f)
     return log
